@@ -286,7 +286,7 @@ func suiteBind(c M) M {
 			if first == nil {
 				first = r
 			}
-			seen[fmt.Sprint(r["class"], "|", r["obs"], "|", r["errtext"])]++
+			seen[fmt.Sprint(r["class"], "|", r["obs"], "|", r["errtext"], "|", r["after"])]++
 		}
 		first["distinct"] = len(seen)
 		if len(seen) > 1 {
@@ -343,6 +343,7 @@ func suiteBind(c M) M {
 		r["errtext"] = err.Error()
 		if ptr.IsValid() {
 			r["unchanged"] = showGo(ptr.Elem()) == before
+			r["after"] = showGo(ptr.Elem()) // the target after a failed Bind is part of the outcome too
 		}
 		return r
 	}
